@@ -1023,7 +1023,7 @@ Variable cell rng : Type.
 Variable cache_ok : tree -> Markers.table -> bool.
 Variable mk_decide : tree -> Markers.table ->
                      rng -> option (nat * node) -> list node -> list cell -> list rec * rng.
-Hypothesis decide_kids : forall t1 tb1 g p kids cs,
+Hypothesis decide_kids : forall t1 tb1 g p kids cs, (2 <= length kids)%nat ->
   Forall (fun r => In (asg r) kids) (fst (mk_decide t1 tb1 g p kids cs)).
 Notation run := (run_mapping_model cell rng cache_ok mk_decide).
 
@@ -1081,3 +1081,154 @@ Proof.
   specialize (H k ltac:(apply in_seq; lia)). rewrite forallb_forall in H. specialize (H x Hx).
   destruct (children_of (nth k t []) x); discriminate.
 Qed.
+
+(* ------------------------------------------------------------------ totality: no KeyError, no stranded cell *)
+Lemma backfill_exists t cells :
+  (forall c, In c cells -> exists o, backfill_one t c = TOk o) -> exists out, backfill t cells = TOk out.
+Proof.
+  intros H.
+  assert (G : exists out, Forall2 (fun c o => backfill_one t c = TOk o) cells out).
+  { induction cells as [|c cells IH]; [exists []; constructor|].
+    destruct (H c (or_introl eq_refl)) as (o & Ho).
+    destruct IH as (out & Hout); [intros c' Hc'; apply H; right; exact Hc'|].
+    exists (o :: out). constructor; assumption. }
+  destruct G as (out & G). exists out. apply backfill_spec. exact G.
+Qed.
+
+Lemma backfill_one_drop_total (t : tree) li row r p :
+  (S li < length t)%nat -> length row = (length t - 1)%nat ->
+  nth_error row li = Some r -> parent_of (nth li t []) (asg r) = Some p ->
+  exists o, backfill_one (drop_cells t) (place (remove_nth li (seq 0 (length t))) row) = TOk o.
+Proof.
+  intros Hli Hlen Er Ep. set (n := length t) in *.
+  set (c := place (remove_nth li (seq 0 n)) row) in *.
+  assert (Lc : forall k, lookup k c = if (k =? li)%nat then None else option_map direct (nth_error row (down_level li k))).
+  { intros k. unfold c. apply lookup_place_drop; [lia | exact Hlen]. }
+  assert (Lli : lookup li c = None) by (rewrite Lc, Nat.eqb_refl; reflexivity).
+  assert (LS : lookup (S li) c = Some (direct r)).
+  { rewrite Lc. replace (S li =? li)%nat with false by (symmetry; apply Nat.eqb_neq; lia).
+    unfold down_level. replace (S li <? li)%nat with false by (symmetry; apply Nat.ltb_ge; lia).
+    cbn [pred]. rewrite Er. reflexivity. }
+  assert (Lother : forall k, (k < n - 1)%nat -> k <> li -> lookup k c <> None).
+  { intros k Hk Hne. rewrite Lc. apply Nat.eqb_neq in Hne. rewrite Hne.
+    destruct (nth_error row (down_level li k)) eqn:E; [discriminate|].
+    apply nth_error_None in E. unfold down_level in E. destruct (k <? li)%nat eqn:E2; [|apply Nat.ltb_ge in E2]; lia. }
+  eexists. unfold backfill_one. rewrite drop_cells_length. change (length t) with n.
+  rewrite (seq_split (n - 1) li) by lia.
+  rewrite rev_app_distr. cbn [rev]. rewrite <- app_assoc. cbn [app].
+  rewrite (fold_single_gap _ _ li _ c (direct r)); [| | |exact Lli|exact LS].
+  - rewrite drop_cells_nth by exact Hli. change (o_asg (direct r)) with (asg r). rewrite Ep. reflexivity.
+  - intros k Hk. apply in_rev in Hk. apply in_seq in Hk. apply Lother; lia.
+  - intros k Hk. apply in_rev in Hk. apply in_seq in Hk. apply Lother; lia.
+Qed.
+
+Lemma fold_climb_total (t t0 : tree) : validate t = true ->
+  forall d, (S d < length t)%nat -> (forall k, (k <= d)%nat -> nth k t0 [] = nth k t []) ->
+  forall c f, (forall k, (k <= d)%nat -> lookup k c = None) ->
+    lookup (S d) c = Some f -> In (o_asg f) (nodes (nth (S d) t [])) ->
+    exists o, fold_tres (fun c' k => backfill_cell t0 k c') (rev (seq 0 (S d))) c = TOk o.
+Proof.
+  intros V. induction d as [|d IH]; intros Hd Hsame c f Hnone Hf Hin.
+  - cbn. unfold backfill_cell. rewrite (Hnone 0%nat) by lia. rewrite Hf, (Hsame 0%nat) by lia.
+    destruct (node_has_parent t V 0%nat (o_asg f) Hd Hin) as (p & Ep & _). rewrite Ep. eauto.
+  - rewrite seq_S, rev_app_distr. cbn [rev app plus fold_tres].
+    unfold backfill_cell at 1. rewrite (Hnone (S d)) by lia. rewrite Hf, (Hsame (S d)) by lia.
+    destruct (node_has_parent t V (S d) (o_asg f) Hd Hin) as (p & Ep & Hp & _). rewrite Ep.
+    apply (IH ltac:(lia) ltac:(intros k Hk; apply Hsame; lia) _ (inferred p f)).
+    + intros k Hk. rewrite lookup_app, (Hnone k) by lia. cbn.
+      replace (k =? S d)%nat with false by (symmetry; apply Nat.eqb_neq; lia). reflexivity.
+    + rewrite lookup_app, (Hnone (S d)) by lia. cbn. rewrite Nat.eqb_refl. reflexivity.
+    + exact Hp.
+Qed.
+
+Section NoKeyError.
+Variable cell rng : Type.
+Variable cache_ok : tree -> Markers.table -> bool.
+Variable mk_decide : tree -> Markers.table ->
+                     rng -> option (nat * node) -> list node -> list cell -> list rec * rng.
+Hypothesis decide_kids : forall t1 tb1 g p kids cs, (2 <= length kids)%nat ->
+  Forall (fun r => In (asg r) kids) (fst (mk_decide t1 tb1 g p kids cs)).
+Notation run := (run_mapping_model cell rng cache_ok mk_decide).
+
+(* backfill_assignments never meets a node without a parent: whatever the election voted on
+   the reduced tree is a node of the stored tree below the top level *)
+Theorem no_key_error t c tb cells g t' m :
+  tree_ok t -> validate t = true ->
+  reduce t c = TOk (t', m) ->
+  run t c tb cells g <> TErr Tree.E_KEY.
+Proof.
+  intros Ht V Hr. pose proof (tree_ok_wf t Ht) as W.
+  unfold run_mapping_model. rewrite Hr.
+  set (tb' := if cfg_flatten c then Markers.flatten_table tb else tb) in *.
+  destruct (cache_ok t' tb'); cbn [negb]; [|discriminate].
+  destruct (run_type_assignment cell rng (mk_decide t' tb') t' cells g) as [[rows0 g']| | |] eqn:El; try discriminate.
+  assert (Sound : tree_ok t' -> forall row0, In row0 rows0 -> Election.path_ok t' row0 = true).
+  { intros Ht' row0 Hin.
+    assert (Hs : spec_routing t' (length cells) rows0 = true)
+      by (eapply (routing_sound cell rng (mk_decide t' tb')); [apply decide_kids | exact Ht' | exact El]).
+    unfold spec_routing in Hs. apply andb_true_iff in Hs. destruct Hs as [_ Hs].
+    rewrite forallb_forall in Hs. apply Hs. exact Hin. }
+  assert (Fin : (forall row0, In row0 rows0 -> exists o, backfill_one (drop_cells t) (place m row0) = TOk o) ->
+            match backfill (drop_cells t) (map (place m) rows0) with
+            | TOk out => TOk (out, g') | TErr e => TErr e end <> TErr Tree.E_KEY).
+  { intros Hcells. destruct (backfill_exists (drop_cells t) (map (place m) rows0)) as (out & Eo).
+    - intros c0 Hc0. apply in_map_iff in Hc0. destruct Hc0 as (row0 & <- & Hrow0). apply Hcells. exact Hrow0.
+    - rewrite Eo. discriminate. }
+  apply Fin. clear Fin.
+  destruct (reduce_cases t c t' m V W Hr) as [[E1 E2] | [(li & Hli & E1 & E2) | [E1 E2]]].
+  - assert (Ht' : tree_ok t') by (rewrite E1; exact Ht).
+    intros row0 Hin. pose proof (Sound Ht' row0 Hin) as P. rewrite E1 in P. rewrite E2.
+    destruct (path_ok_elim t row0 P) as (L & _ & _).
+    exists (place (seq 0 (length t)) row0). unfold backfill_one. apply fold_present.
+    intros k Hk. apply in_rev in Hk. apply in_seq in Hk.
+    rewrite drop_cells_length in Hk. rewrite lookup_place_id by exact L.
+    destruct (nth_error row0 k) eqn:E; [discriminate|]. apply nth_error_None in E. lia.
+  - assert (Ht' : tree_ok t') by (rewrite E1; apply tree_ok_raw_drop; assumption).
+    intros row0 Hin. pose proof (Sound Ht' row0 Hin) as P. rewrite E1 in P. rewrite E2.
+    destruct (path_ok_elim _ row0 P) as (L & N & _). rewrite raw_drop_length in L by lia.
+    destruct (nth_error row0 li) as [r|] eqn:Er; [|apply nth_error_None in Er; lia].
+    pose proof (N li r Er) as Hn. rewrite raw_drop_nth in Hn by lia.
+    replace (S li =? li)%nat with false in Hn by (symmetry; apply Nat.eqb_neq; lia).
+    replace (li <? li)%nat with false in Hn by (symmetry; apply Nat.ltb_irrefl).
+    destruct (node_has_parent t V li (asg r) Hli Hn) as (p & Ep & _).
+    eapply backfill_one_drop_total; eauto.
+  - assert (Ht' : tree_ok t') by (rewrite E1; apply tree_ok_leaf; exact Ht).
+    intros row0 Hin. pose proof (Sound Ht' row0 Hin) as P. rewrite E1 in P. rewrite E2.
+    destruct (path_ok_elim _ row0 P) as (L & N & _). cbn [length] in L.
+    destruct row0 as [|r [|r2 row0]]; try discriminate.
+    pose proof (N 0%nat r eq_refl) as Hleaf. cbn [nth] in Hleaf. rewrite leaf_level_nth in Hleaf.
+    unfold backfill_one. rewrite drop_cells_length.
+    change (place [(length t - 1)%nat] [r]) with [((length t - 1)%nat, direct r)].
+    destruct (length t - 1)%nat as [|d] eqn:En; [cbn; eauto|].
+    apply (fold_climb_total t (drop_cells t) V d ltac:(lia)) with (f := direct r).
+    + intros k Hk. apply drop_cells_nth. lia.
+    + intros k Hk. cbn. replace (k =? S d)%nat with false by (symmetry; apply Nat.eqb_neq; lia). reflexivity.
+    + cbn. rewrite Nat.eqb_refl. reflexivity.
+    + exact Hleaf.
+Qed.
+
+(* ... and with a decision procedure that answers for every cell, the run succeeds as soon as
+   the reduction and the marker cache are accepted: the election strands no cell (C01) *)
+Hypothesis decide_len : forall t1 tb1 g p kids cs, (2 <= length kids)%nat ->
+  length (fst (mk_decide t1 tb1 g p kids cs)) = length cs.
+
+Theorem run_total t c tb cells g t' m :
+  tree_ok t -> validate t = true ->
+  reduce t c = TOk (t', m) ->
+  cache_ok t' (if cfg_flatten c then Markers.flatten_table tb else tb) = true ->
+  exists rows g', run t c tb cells g = TOk (rows, g').
+Proof.
+  intros Ht V Hr Hc. pose proof (tree_ok_wf t Ht) as W.
+  pose proof (no_key_error t c tb cells g t' m Ht V Hr) as NK.
+  unfold run_mapping_model in *. rewrite Hr in *. rewrite Hc in *. cbn [negb] in *.
+  set (tb' := if cfg_flatten c then Markers.flatten_table tb else tb) in *.
+  assert (Ht' : tree_ok t').
+  { destruct (reduce_cases t c t' m V W Hr) as [[E1 E2] | [(li & Hli & E1 & E2) | [E1 E2]]]; rewrite E1;
+      [exact Ht | apply tree_ok_raw_drop; assumption | apply tree_ok_leaf; exact Ht]. }
+  destruct (routing_total cell rng (mk_decide t' tb') (decide_len t' tb') (decide_kids t' tb') t' cells g Ht')
+    as (rows0 & g' & El).
+  rewrite El in *.
+  destruct (backfill (drop_cells t) (map (place m) rows0)) as [out|e] eqn:Eb; [eauto|].
+  exfalso. apply NK. f_equal. eapply backfill_err. exact Eb.
+Qed.
+End NoKeyError.
